@@ -505,6 +505,6 @@ def _single_shot(args: dict) -> np.array:
     psi = circ.statevector(psi0)
 
     # Calculate probabilities with the Born rule.
-    shot_result = np.square(np.absolute(psi))
+    shot_result = np.square(np.absolute(np.asarray(psi, dtype=complex)))
 
     return shot_result
